@@ -71,6 +71,13 @@ func vC05StubParseFloat(s string, bitSize int) (float64, error) {
 	if vC05ParseFloatErr[s] {
 		return 0, strconv.ErrSyntax
 	}
+	// text containing a byte that cannot occur in a Go float literal (e.g. the UTF-8 bytes of U+0085,
+	// which is no longer trimmed since the fix of F-C05-NEL-trimmed-as-white-space): syntax error
+	for i := 0; i < len(s); i++ {
+		if s[i] >= 0x80 {
+			return 0, strconv.ErrSyntax
+		}
+	}
 	panic("vC05StubParseFloat: input outside the modelled contract: " + s)
 }
 
